@@ -292,6 +292,11 @@ FORMULAS = [
     r'\A y: x + y >= x - 1', r'\E y: x = y + y', r'\A b: b \/ c',
     r'\E x, y: x + y = z', r'\A x: \E y: (x + y) % 2 = 0',
     'LET a == x + 1 IN a > y', 'LET a == x + 1  d == a * 2 IN d > z',
+    # a definition is local to its LET: sibling LETs may reuse the name, and a name that
+    # shadows a declared variable means the variable again after the LET
+    r'(LET a == x + 1 IN a = y) /\ (LET a == 2 IN z = a)',
+    r'(LET y == x + 1 IN y = 3) /\ (y # x)',
+    r'(LET a == x IN a > 0) \/ (LET a == y IN a < 0) \/ (LET a == b IN a)',
     r'/\ b /\ (x < 2) /\ c',
     '(x + y) * (z - x) <= z * 2', 'x - (y - z) = w',
     'ite(b, x + 1, y * 2) - z < 3',
